@@ -49,6 +49,12 @@ class Loops:
                     key = ('genloop', id(it.node))
                     loop = self._genloops.setdefault(key, loop)
                     return self.for_loop(loop, a, gfr)
+            fa = self.filter_append(s, a, fr)
+            if fa is not None and isinstance(it, SAbs):
+                # `for x in xs: if c: out.append(e)` with `out` a local list that is still empty: out = [e for x in xs if c]
+                name, comp = fa
+                comp = self._genloops.setdefault(('filterappend', id(s)), comp)
+                return ex.bind(ex.ev(comp, a, fr), lambda v, b: ex.assign(ast.Name(id=name, ctx=ast.Store()), v, b, fr))
             items = self.concrete_items(it, a)
             if items is not None:
                 if len(items) > self.UNROLL_MAX:
@@ -56,6 +62,29 @@ class Loops:
                 return self.unroll(s, items, 0, a, fr)
             return self.for_cut(s, it, a, fr)
         return ex.bind(ex.ev(s.iter, st, fr), k)
+
+    def filter_append(self, s, st, fr):
+        if s.orelse or len(s.body) != 1 or not isinstance(s.body[0], ast.If) or s.body[0].orelse:
+            return None
+        iff = s.body[0]
+        if len(iff.body) != 1 or not isinstance(iff.body[0], ast.Expr) or not isinstance(iff.body[0].value, ast.Call):
+            return None
+        c = iff.body[0].value
+        if not (isinstance(c.func, ast.Attribute) and c.func.attr == 'append' and isinstance(c.func.value, ast.Name)
+                and len(c.args) == 1 and not c.keywords):
+            return None
+        name = c.func.value.id
+        cur = st.envs.get(fr.fid, {}).get(name)
+        if not (isinstance(cur, SList) and st.lists[cur.lid] == []):
+            return None
+        # the list must not be mentioned by the filter, the element or the iterable
+        for part in (iff.test, c.args[0], s.iter):
+            if any(isinstance(n, ast.Name) and n.id == name for n in ast.walk(part)):
+                return None
+        comp = ast.ListComp(elt=c.args[0], generators=[ast.comprehension(target=s.target, iter=s.iter, ifs=[iff.test], is_async=0)])
+        ast.copy_location(comp, s)
+        ast.fix_missing_locations(comp)
+        return name, comp
 
     def unroll(self, s, items, i, st, fr):
         ex = self.ex
